@@ -12,6 +12,9 @@
 (*   layouts: maps = per segment layout of one deletion-free corpus, the hits   *)
 (*            [[document, score rank]..] of the same query (documents named by  *)
 (*            their docnum in the first layout): all layouts must agree (C09)    *)
+(*   matchedterms: hits = [[docnum, [[field, term]..]]..] of search(terms=True):  *)
+(*            Hit.matched_terms() contains the terms of the matching sub-clauses    *)
+(*            and only terms of the query that occur in the document               *)
 (*   scoresub: hits = [[docnum, score]..] some search returned: each score must   *)
 (*            be the documented one, whatever else was or was not returned (C09)  *)
 (*   termstats: f, t, n, df, cf4, totlen, docs = [[docnum, weight*4, length]..]  *)
@@ -50,6 +53,58 @@ SuggestFacts(idx, o) ==
                                /\ \A t \in (cand \ {o.word}) \ LS : /\ Len(L) >= o.limit
                                                                      /\ \A x \in LS \ {o.word} : ~SugBetter(idx, o, t, x)]
 
+\* ---- matched terms of a hit (search(terms=True); C01/C11) ------------------------
+\* The terms a query is made of (multi-term clauses: the terms they expand to), and of those the ones
+\* that occur in document d: that is what Hit.matched_terms() must report, no more and no less.
+Fuzzy2(q, t) == /\ DL(q.t, t) <= q.maxdist
+                /\ Len(t) >= Min2(q.prefix, Len(q.t))
+                /\ SubSeq(t, 1, Min2(q.prefix, Len(q.t))) = SubSeq(q.t, 1, Min2(q.prefix, Len(q.t)))
+\* A term is reported for a hit when the matcher of that term stands on the document - which is the case
+\* exactly for the terms of the sub-clauses that themselves match the document.
+RECURSIVE MatchedTerms(_, _, _)
+MatchedTerms(idx, q, d) ==
+  LET hit(x) == d \in DOMAIN Denote(idx, x)
+      occ(f, T) == {<<f, t>> : t \in {u \in T : Tf(idx, d, f, u) > 0}}
+  IN CASE q.op = "term" -> occ(q.f, {q.t})
+       [] q.op \in {"null", "every", "numrange"} -> {}
+       [] q.op = "and" -> IF hit(q) THEN UNION {MatchedTerms(idx, q.kids[i], d) : i \in DOMAIN q.kids} ELSE {}
+       [] q.op \in {"or", "dismax"} -> UNION {MatchedTerms(idx, q.kids[i], d) : i \in DOMAIN q.kids}
+       [] q.op = "const" -> MatchedTerms(idx, q.q, d)
+       [] q.op = "andnot" -> IF hit(q) THEN MatchedTerms(idx, q.a, d) ELSE {}
+       [] q.op = "andmaybe" -> IF hit(q.a) THEN MatchedTerms(idx, q.a, d) \cup MatchedTerms(idx, q.b, d) ELSE {}
+       \* (the second operand of Require only filters; whether its terms are reported is not fixed)
+       [] q.op = "require" -> IF hit(q) THEN MatchedTerms(idx, q.a, d) ELSE {}
+       [] q.op = "phrase" -> IF hit(q) THEN {<<q.f, q.words[i]>> : i \in DOMAIN q.words} ELSE {}
+       [] q.op = "prefix" -> occ(q.f, {u \in Lexicon(idx, q.f) : IsPrefixOf(q.t, u)})
+       [] q.op = "wildcard" -> IF \A i \in DOMAIN q.t : q.t[i] = -2 THEN {}      \* "*" is Every(field)
+                               ELSE occ(q.f, {u \in Lexicon(idx, q.f) : Glob(q.t, u)})
+       [] q.op = "termrange" -> occ(q.f, {u \in Lexicon(idx, q.f) : TermInRange(u, q)})
+\* every term the query is made of (multi-term clauses: the terms they expand to)
+RECURSIVE TermLeaves(_, _)
+TermLeaves(idx, q) ==
+  CASE q.op = "term" -> {<<q.f, q.t>>}
+    [] q.op \in {"null", "every", "numrange"} -> {}
+    [] q.op \in {"and", "or", "dismax"} -> UNION {TermLeaves(idx, q.kids[i]) : i \in DOMAIN q.kids}
+    [] q.op = "const" -> TermLeaves(idx, q.q)
+    [] q.op \in {"andnot", "andmaybe", "require"} -> TermLeaves(idx, q.a) \cup TermLeaves(idx, q.b)
+    [] q.op = "phrase" -> {<<q.f, q.words[i]>> : i \in DOMAIN q.words}
+    [] q.op = "prefix" -> {<<q.f, t>> : t \in {u \in Lexicon(idx, q.f) : IsPrefixOf(q.t, u)}}
+    [] q.op = "wildcard" -> {<<q.f, t>> : t \in {u \in Lexicon(idx, q.f) : Glob(q.t, u)}}
+    [] q.op = "termrange" -> {<<q.f, t>> : t \in {u \in Lexicon(idx, q.f) : TermInRange(u, q)}}
+\* What Hit.matched_terms() reports lies between the terms of the sub-clauses that match the document
+\* (their matchers necessarily stand on it) and the query's terms that occur in the document at all
+\* (a clause that does not match may or may not have been moved past the document).
+MatchedOK(idx, m, q, o) ==
+  /\ (o.partial \/ {o.hits[i][1] : i \in DOMAIN o.hits} = DOMAIN m)       \* partial: the hits of a limited search
+  /\ {o.hits[i][1] : i \in DOMAIN o.hits} \subseteq DOMAIN m
+  /\ \A i \in DOMAIN o.hits :
+        LET got == {<<o.hits[i][2][j][1], o.hits[i][2][j][2]>> : j \in DOMAIN o.hits[i][2]}
+            d == o.hits[i][1]
+        \* (in a limited search, clauses that can no longer change the outcome are skipped ahead and their
+        \* terms are then not reported: only the upper bound is asked there)
+        IN /\ (o.partial \/ MatchedTerms(idx, q, d) \subseteq got)
+           /\ got \subseteq {ft \in TermLeaves(idx, q) : Tf(idx, d, ft[1], ft[2]) > 0}
+
 \* ---- statistics behind the weighting formulas (C09) ---------------------------
 FLen(idx, d, f) == Cardinality({i \in DOMAIN Toks(idx, d, f) : Toks(idx, d, f)[i] # Gap})
 RECURSIVE SumFn(_, _)
@@ -70,6 +125,7 @@ Expected(idx, m, q, o) ==
   CASE o.kind = "ids" -> [ids |-> Ids(m)]
     [] o.kind = "layouts" -> [same_in_every_layout |-> TRUE, documents |-> Ids(m)]
     [] o.kind = "scoresub" -> [scores |-> Hits(m, Ids(m))]
+    [] o.kind = "matchedterms" -> [hits |-> [i \in DOMAIN Ids(m) |-> <<Ids(m)[i], SetToSeq(MatchedTerms(idx, q, Ids(m)[i]))>>]]
     [] o.kind = "termstats" -> TermStats(idx, o.f, o.t)
     [] o.kind = "count" -> [n |-> Cardinality(DOMAIN m)]
     [] o.kind = "ranked" -> [hits |-> Hits(m, TopK(m, o.k)), scored |-> Scored(q)]
@@ -82,6 +138,7 @@ Expected(idx, m, q, o) ==
 ObsOK(idx, m, q, o) ==
   CASE o.kind = "ids" -> o.ids = Ids(m)
     [] o.kind = "layouts" -> LayoutsOK(m, o)
+    [] o.kind = "matchedterms" -> MatchedOK(idx, m, q, o)
     [] o.kind = "scoresub" ->      \* whatever a limited search returned carries the documented score (C09)
          Scored(q) => \A i \in DOMAIN o.hits : o.hits[i][1] \in DOMAIN m /\ m[o.hits[i][1]] = o.hits[i][2]
     [] o.kind = "termstats" -> LET S == TermStats(idx, o.f, o.t) IN
